@@ -7,7 +7,7 @@
 //!   op:   u<i>=<val>   update instance i, then observe last() and the buffer population
 //!         l<i>         observe last() of instance i
 //!         c<i>         clone instance i (the clone gets the next free index)
-//!   val:  n/d (decimal integers)           -- at f64 the value is (n as f64)/(d as f64)
+//!   val:  n/d (decimal integers)           -- at f64 the value is (n as f64)/(d as f64); or x<16 hex digits> (f64 bits)
 //! stdout: <id> K|KE  <obs> ...   obs: N | S:<n>/<d> | S:x<16 hex digits> | E (panic / non-finite) | X (dead)
 //!         `u` prints <obs>@<elements in all [..] of the Debug dump>; `c` prints C or CE
 //!         after the ops, one token P<k>=[v,v,...] per Probe leaf.
@@ -48,6 +48,10 @@ static A: Counting = Counting;
 // ---------------------------------------------------------------- scalars
 pub trait Scalar: Float + Debug + 'static {
     fn from_ratio(n: &BigInt, d: &BigInt) -> Self;
+    /// raw f64 bit pattern (only meaningful at f64; lets -0.0 and other exact values be fed back)
+    fn from_bits_token(_: u64) -> Self {
+        panic!("bit patterns are f64 only")
+    }
     fn show(self) -> String;
     fn good(self) -> bool;
 }
@@ -66,6 +70,9 @@ impl Scalar for f64 {
     fn from_ratio(n: &BigInt, d: &BigInt) -> f64 {
         use num::ToPrimitive;
         n.to_f64().unwrap() / d.to_f64().unwrap()
+    }
+    fn from_bits_token(b: u64) -> f64 {
+        f64::from_bits(b)
     }
     fn show(self) -> String {
         format!("x{:016x}", self.to_bits())
@@ -398,8 +405,13 @@ fn run_case<T: Scalar>(desc: &str, ops: &[&str]) -> String {
         }
         match kind {
             "u" => {
-                let (n, d) = ratio(val.unwrap());
-                let x = T::from_ratio(&n, &d);
+                let tok = val.unwrap();
+                let x = if let Some(h) = tok.strip_prefix('x') {
+                    T::from_bits_token(u64::from_str_radix(h, 16).unwrap())
+                } else {
+                    let (n, d) = ratio(tok);
+                    T::from_ratio(&n, &d)
+                };
                 let v = inst[idx].as_mut().unwrap();
                 let r = catch_unwind(AssertUnwindSafe(|| {
                     v.update(x);
